@@ -3,8 +3,13 @@
 Oracles: analytic derivatives of polynomials of degree <= 2 (written out by hand: f = c + b.x + x^T S x,
 d_k f = b_k + 2 sum_j S_kj x_j, d_k d_k f = 2 S_kk) combined by the textbook formulas, the pairing
 component -> axis taken from the case parameters (never from the library); for arbitrary data the
-combination of Field.diff of separately built scalar fields (the statement's own wording)."""
+combination of Field.diff of separately built scalar fields (the statement's own wording).
+Pairings of fields built with default labels / default mapping, of stacked fields and of operator results are stated by
+POSITION (component j <-> mesh axis j) from the case parameters and exercised on meshes whose dimension names collide with
+component labels; chained operators (div grad, grad div, curl grad, div curl) check what the next operator makes of them."""
+import functools
 import itertools
+import operator
 import numpy as np
 import discretisedfield as df
 from .common import raises, ulp_close
@@ -15,19 +20,31 @@ CLAUSES = {
     "C05.div_exact": "div of a degree-<=2 polynomial vector field == sum over components m of analytic d v_m / d axis(mapping[vdims[m]]) (==, or within 64 ulp of sum_m T_m/dx_axis(m)); result is scalar",
     "C05.curl_exact": "curl (3 components on a 3-d mesh): the component paired with axis k equals d v_r(k+2)/d axis(k+1) - d v_r(k+1)/d axis(k+2) with r = inverse of the mapping, k cyclic in mesh-axis order (==, or within 64 ulp of the operand scale)",
     "C05.laplace_exact": "laplace of degree-<=2 polynomials: every component (scalar or vector, any component count) equals 2*trace(S) of its own polynomial (==, or within 64 ulp of T_m sum_d 1/dx_d^2)",
-    "C05.relabel_keeps_pairing": "renaming the components (f.vdims = new labels) carries the component-to-axis pairing over to the new labels and the operators still pair by it",
+    "C05.relabel_keeps_pairing": "renaming the components (f.vdims = new labels: fresh, the dimension names shuffled, the default labels, or the old labels rotated) carries the component-to-axis pairing over to the new labels position by position and the operators still pair by it",
     "C05.combination": "for arbitrary values, validity masks and periodic directions: grad == stack of diff(axis) per axis; div == sum_m diff(component m, mapped axis); curl_k == diff(v_r(k+2), k+1) - diff(v_r(k+1), k+2); laplace == sum_d diff(component, d, order 2); diffs taken with Field.diff on separately built scalar fields; within 8 ulp of the summed term magnitudes",
     "C05.curl_grad_zero": "curl(grad f) == 0 within 64 ulp of max|f|/(dx_a dx_b) per component on fully valid 3-d meshes (any n >= 1, open or periodic)",
     "C05.div_curl_zero": "div(curl v) == 0 within 64 ulp of max|v| * sum over axis pairs 1/(dx_a dx_b) on fully valid 3-d meshes (any n >= 1, open or periodic, any mapping)",
     "C05.rot90_commute": "op(f.rotate90(ax1, ax2, k)) == op(f).rotate90(ax1, ax2, k) for op in grad, div, curl, laplace, every axis pair and k=1,2,3: same n, region corners within 64 ulp of the coordinate scale, values within 64 ulp of g*max|f| sum_d 1/dx_d^order, same validity (g = 1 + R/min in-plane edge accounts for the rounding of the rotated corners at the in-plane coordinate scale R)",
+    "C05.default_pairing": "a vector field with nvdim == ndim >= 2 built without component labels carries the documented default labels (x, y[, z]; v0.. for 4), and built without a mapping it pairs component m with mesh axis m BY POSITION - {vdims[m]: dims[m]} - whatever the labels and the dimension names are spelled like (dims that are the default labels in another order, labels that are the dims shuffled, ...); an explicit mapping is kept as given",
+    "C05.result_pairing": "metadata of the results: grad and curl have ndim distinct labels and component j belongs to mesh axis j (vdim_mapping == {vdims[j]: dims[j]}, ndim >= 2); the Laplacian of a mapped vector field keeps the labels and the pairing of its input; div and the scalar Laplacian are scalar",
+    "C05.chain_exact": "operators applied to operator results, degree-<=2 polynomials, >= 3 cells per direction, open, fully valid: div(grad f) == 2 tr S; grad(div v) component of axis a == sum_m 2 S_m[axis(m), a]; on 3-d meshes curl(grad f) == 0 and div(curl v) == 0 (== for integer coefficients and power-of-two cells, else within 64 ulp of the first result's rounding scale divided by the cell size of the second derivative)",
+    "C05.stacked_pairing": "stacking scalar fields with << (how grad and curl build their results): component j holds the j-th operand (valid = AND of the operands); unlabelled operands give distinct labels paired with the mesh axes by position; operands labelled and mapped individually keep their label and axis; div/curl of the stacked field follow that pairing (values under C05.combination)",
     "C05.refusals": "refused (ValueError or TypeError): grad of a non-scalar field; div with nvdim != ndim; curl unless nvdim == ndim == 3; div/curl when a component has no mapping entry, maps to a name that is not a mesh axis, or (curl) an axis has no component",
 }
 RULE = ("poly: seeded meshes of 1-4 dims with 3-6 cells per axis, anisotropic cells (power of two for the exact variant, 10^U(-9,1) "
         "otherwise), renamed dims, fresh or misleading (= dimension names, shuffled) component labels, every permutation of the "
         "mapping for ndim <= 3 and sampled for ndim 4; combo/identity/rot: seeded random data, n from 1, masks, periodic subsets; "
-        "rot: every unordered axis pair in both orders x k in 1..3; non-trivial = more than one cell; distinct by (kind, params)")
+        "rot: every unordered axis pair in both orders x k in 1..3; "
+        "collision block (all kinds, plus stack): dimension names that ARE component labels - x,y,z in each of the 5 non-standard orders, "
+        "(y,x) (x,z) (z,x) (y,z) (z,y) in 2-d, y / z in 1-d, v0..v3 permuted and x,y,z + a foreign name shuffled in 4-d, two default "
+        "labels + a foreign name in 3-d - and ordinary random names, each crossed with labels {not given, default labels shuffled, "
+        "dims shuffled, fresh} x mapping {not given (default), explicit random permutation}, relabelling to fresh / dims shuffled / "
+        "default labels / the old labels rotated; stack: operands unlabelled or individually labelled+mapped, left/right association; "
+        "non-trivial = more than one cell; distinct by (kind, params)")
 ASSUMPTIONS = ["bounded: meshes <= 6 cells per axis, <= 4 dims; polynomial coefficients and data seeded",
                "rot90 cases: |p1| <= 6 cells from the origin and cell sizes within a factor 16 of each other, so that the geometric factor g of the rounding budget stays below ~100",
+               "periodic directions only on meshes with one-character dimension names (bc names an axis by one character)",
+               "default component labels taken from the documentation (x, y, z for 2-3 components, v0.. for more)",
                "trusted: Field construction from arrays, Field.diff (covered by C04) in C05.combination, numpy"]
 
 NAMES = ["a", "b", "c", "e", "g", "h", "k", "p", "q", "r", "s", "u", "w", "x", "y", "z"]
@@ -37,9 +54,12 @@ SIG_LAPMAP = "vector-laplace-resets-vdim-mapping-to-positional"
 
 
 # ------------------------------------------------------------------ cases
-def _mesh_params(rng, ndim, exact, nlo, nhi, periodic=None, small_offset=False):
+def _mesh_params(rng, ndim, exact, nlo, nhi, periodic=None, small_offset=False, dims=None):
     n = rng.integers(nlo, nhi + 1, size=ndim).tolist()
-    dims = [str(d) for d in rng.choice(NAMES, size=ndim, replace=False)]
+    rnd = [str(d) for d in rng.choice(NAMES, size=ndim, replace=False)]
+    dims = rnd if dims is None else list(dims)
+    if any(len(d) != 1 for d in dims):
+        periodic = None     # a periodic direction is named by ONE character of bc: not expressible for names like 'v0'
     if small_offset:        # rotation cases: anisotropic, but cell sizes within a factor 16 of each other
         cell = (10.0 ** rng.uniform(-9, 1) * rng.uniform(0.25, 4.0, size=ndim)).tolist()
         p1 = (np.array(cell) * rng.uniform(-6, 6, size=ndim)).tolist()
@@ -66,6 +86,130 @@ def _labels(rng, dims, mode):
     if mode == "dims":      # labels spelled like the dimensions, in shuffled position
         return [str(v) for v in rng.permutation(dims)]
     return ["x", "y", "z", "v3"][:nd] if nd != 4 else ["v0", "v1", "v2", "v3"]
+
+
+def _default_labels(nv):
+    """the documented default component labels"""
+    if nv == 1:
+        return None
+    return ["x", "y", "z"][:nv] if nv <= 3 else [f"v{i}" for i in range(nv)]
+
+
+OTHER = ["a", "b", "c", "e", "g", "h"]
+
+
+def _collide_list(rng, ndim):
+    """dimension names that collide with default component labels, (almost) never at the standard position"""
+    if ndim == 1:
+        return [["y"], ["z"]]
+    if ndim == 2:
+        return [["y", "x"], ["x", "z"], ["z", "x"], ["y", "z"], ["z", "y"]]
+    if ndim == 3:
+        out = [list(p) for p in itertools.permutations("xyz")][1:]      # the default labels in every non-standard order
+        for _ in range(2):                                                  # two of them + a foreign name
+            p = [str(s) for s in rng.permutation(["x", "y", "z"])]
+            p[int(rng.integers(3))] = str(rng.choice(OTHER))
+            out.append(p)
+        return out
+    out = []
+    base = _default_labels(4)
+    while len(out) < 2:                                                     # v0..v3 in a non-standard order
+        p = [str(s) for s in rng.permutation(base)]
+        if p != base and p not in out:
+            out.append(p)
+    for _ in range(2):                                                      # x, y, z and a foreign name, shuffled
+        out.append([str(s) for s in rng.permutation(["x", "y", "z", str(rng.choice(OTHER))])])
+    return out
+
+
+# (labels, mapping): labels none = not given (library defaults) | defperm = the default labels given in shuffled order |
+# dims = the dimension names shuffled | fresh; mapping default = not given | perm = explicit random permutation
+CFGS = [("none", "default"), ("defperm", "default"), ("dims", "default"), ("fresh", "default"),
+        ("none", "perm"), ("defperm", "perm"), ("dims", "perm")]
+CFGS1 = [("defperm", "perm"), ("dims", "perm")]       # 1-d: a scalar field has no default labels / mapping
+
+
+def _label_cfg(rng, dims, cfg):
+    nd = len(dims)
+    lab, mp = cfg
+    deflab = _default_labels(nd) or ["x"]
+    if lab == "none":
+        vd, keys = None, deflab
+    elif lab == "defperm":
+        vd = keys = [str(v) for v in rng.permutation(deflab)]
+    elif lab == "dims":
+        vd = keys = [str(v) for v in rng.permutation(dims)]
+    else:
+        vd = keys = [str(v) for v in rng.choice(VNAMES, size=nd, replace=False)]
+    if mp == "default":
+        return vd, None
+    perm = rng.permutation(nd).tolist()
+    return vd, {keys[m]: dims[perm[m]] for m in range(nd)}
+
+
+def _relabel(rng, dims, vd):
+    """new component labels: fresh | the dimension names shuffled | the default labels | the old labels rotated"""
+    nd = len(dims)
+    old = vd if vd is not None else (_default_labels(nd) or ["x"])
+    c = int(rng.integers(6))
+    if c == 0:
+        return [str(v) for v in rng.choice(VNAMES, size=nd, replace=False)]
+    if c == 1:
+        return [str(v) for v in rng.permutation(dims)]
+    if c == 2:
+        return _default_labels(nd) or ["x"]
+    if c == 3 and nd > 1:
+        return old[1:] + old[:1]
+    return None
+
+
+def _collision_cases(ctx):
+    rng = ctx.rng
+    quick = ctx.tier == "quick"
+    # ---- NAME COLLISIONS between dimension names and component labels + default labels / default mappings
+    reps = 1 if quick else 3
+    for ndim in (1, 2, 3, 4):
+        for _rep in range(reps):
+            dlist = _collide_list(rng, ndim) + [None]                       # None: ordinary random names
+            for di, dn in enumerate(dlist):
+                for ci, cfg in enumerate(CFGS1 if ndim == 1 else CFGS):
+                    for exact in (True, False):
+                        mp = _mesh_params(rng, ndim, exact, 3, 5 if ndim < 4 else 4, dims=dn)
+                        vd, mapping = _label_cfg(rng, mp["dims"], cfg)
+                        yield "poly", dict(mp, vdims=vd, mapping=mapping, relabel=_relabel(rng, mp["dims"], vd), exact=exact,
+                                           nextra=int(rng.integers(1, 6)), seed=int(rng.integers(1 << 30)))
+                    cfgs = CFGS1 if ndim == 1 else CFGS
+                    cfg = cfgs[(di + ci) % len(cfgs)]
+                    if ci < 2:      # arbitrary data, masks, periodic directions
+                        mp = _mesh_params(rng, ndim, False, 1, {1: 8, 2: 6, 3: 5, 4: 3}[ndim], ["open", "some", "all"][(di + ci) % 3], dims=dn)
+                        vd, mapping = _label_cfg(rng, mp["dims"], cfg)
+                        yield "combo", dict(mp, vdims=vd, mapping=mapping, density=[1.0, 0.8, 0.5][int(rng.integers(3))],
+                                            nextra=int(rng.integers(1, 6)), seed=int(rng.integers(1 << 30)))
+                    if ndim == 3 and ci < 6:
+                        mp = _mesh_params(rng, 3, False, 1, 6, ["open", "some", "all"][ci % 3], dims=dn)
+                        vd, mapping = _label_cfg(rng, mp["dims"], CFGS[(di + ci) % len(CFGS)])
+                        yield "identity", dict(mp, vdims=vd, mapping=mapping, seed=int(rng.integers(1 << 30)))
+                if ndim >= 2:       # stacked fields
+                    for variant in ("left", "right", "labelled-left", "labelled-right"):
+                        mp = _mesh_params(rng, ndim, False, 1, {2: 6, 3: 5, 4: 3}[ndim], ["open", "some", "all"][int(rng.integers(3))], dims=dn)
+                        labels = smap = None
+                        if variant.startswith("labelled"):
+                            src = [mp["dims"], _default_labels(ndim), VNAMES][int(rng.integers(3))]
+                            labels = [str(v) for v in rng.permutation(src)[:ndim]]
+                            smap = [str(v) for v in rng.permutation(mp["dims"])]
+                        yield "stack", dict(mp, assoc=variant.split("-")[-1], labels=labels, smap=smap,
+                                            density=[1.0, 0.8, 0.5][int(rng.integers(3))], seed=int(rng.integers(1 << 30)))
+            # quarter turns on colliding names (open / fully periodic: a partly periodic plane is the known bc finding)
+            if ndim >= 2:
+                picks = [0, 3] if ndim == 2 else ([1, 3] if ndim == 3 else [0, 2])
+                for pi, di in enumerate(picks[: 2 if ndim < 4 or not quick else 1]):
+                    dn = dlist[di]
+                    mp = _mesh_params(rng, ndim, False, 1 if ndim > 2 else 2, {2: 6, 3: 5, 4: 3}[ndim], ["open", "all"][pi % 2], small_offset=True, dims=dn)
+                    vd, mapping = _label_cfg(rng, mp["dims"], CFGS[[0, 2, 1, 4][(pi + ndim) % 4]])
+                    for i, j in itertools.permutations(range(ndim), 2):
+                        for k in (1, 2, 3):
+                            yield "rot", dict(mp, vdims=vd, mapping=mapping, ax1=mp["dims"][i], ax2=mp["dims"][j], k=k,
+                                              density=[1.0, 1.0, 0.7][int(rng.integers(3))], seed=int(rng.integers(1 << 30)))
 
 
 def cases(ctx):
@@ -124,6 +268,7 @@ def cases(ctx):
         for _ in range(2 if quick else 6):
             mp = _mesh_params(rng, ndim, False, 1, 4, ["open", "some"][int(rng.integers(2))])
             yield "refuse", dict(mp, seed=int(rng.integers(1 << 30)))
+    yield from _collision_cases(ctx)
 
 
 # ------------------------------------------------------------------ helpers
@@ -209,9 +354,45 @@ def _scalar(mesh, arr, valid=None):
     return df.Field(mesh, nvdim=1, value=np.ascontiguousarray(arr[..., np.newaxis]), valid=True if valid is None else valid.copy())
 
 
+def _vector(mesh, V, pr, ctx, valid=None):
+    """the vector field of a case: labels / mapping given or left to the library (None in the parameters).
+    Returns (field, labels, mapping) with labels and mapping as the PROPERTY defines them: documented default labels,
+    default pairing by position."""
+    dims = list(pr["dims"])
+    nd = len(dims)
+    vd_p, map_p = pr.get("vdims"), pr.get("mapping")
+    kw = {}
+    if vd_p is not None:
+        kw["vdims"] = list(vd_p)
+    if map_p is not None:
+        kw["vdim_mapping"] = dict(map_p)
+    if valid is not None:
+        kw["valid"] = valid.copy()
+    v = df.Field(mesh, nvdim=nd, value=V.copy(), **kw)
+    vd = list(vd_p) if vd_p is not None else _default_labels(nd)
+    mapping = dict(map_p) if map_p is not None else {vd[m]: dims[m] for m in range(nd)}
+    if vd_p is None or map_p is None:
+        ctx.require(v.vdims == vd and v.vdim_mapping == mapping, "C05.default_pairing",
+                    "default labels / default (positional) pairing of a freshly built vector field",
+                    dims=dims, given_vdims=vd_p, given_mapping=map_p, got_vdims=v.vdims, got_mapping=v.vdim_mapping, want_mapping=mapping)
+    return v, vd, mapping
+
+
+def _positional(res, dims):
+    """result with one component per mesh axis, component j paired with axis j"""
+    nd = len(dims)
+    if res.nvdim != nd:
+        return False
+    if nd == 1:
+        return True
+    vd = res.vdims
+    return vd is not None and len(vd) == nd and len(set(vd)) == nd and res.vdim_mapping == {vd[j]: dims[j] for j in range(nd)}
+
+
 # ------------------------------------------------------------------ checks
 def check(kind, pr, ctx):
-    return {"poly": check_poly, "combo": check_combo, "identity": check_identity, "rot": check_rot, "refuse": check_refuse}[kind](pr, ctx)
+    return {"poly": check_poly, "combo": check_combo, "identity": check_identity, "rot": check_rot, "refuse": check_refuse,
+            "stack": check_stack}[kind](pr, ctx)
 
 
 def check_poly(pr, ctx):
@@ -243,7 +424,27 @@ def check_poly(pr, ctx):
             seen.add(a)
             ok &= _close(g.array[..., c], p.d1(a, X) + 0 * X[0], exact, Fm / dxs[a])
         ctx.require(ok and len(seen) == ndim, "C05.grad_exact", "gradient of a quadratic is not the analytic gradient",
-                    vdims=g.vdims, mapping=g.vdim_mapping)
+                    vdims=g.vdims, mapping=g.vdim_mapping, dims=dims)
+        ctx.require(_positional(g, dims), "C05.result_pairing", "component j of grad is not paired with mesh axis j", op="grad",
+                    dims=dims, vdims=g.vdims, mapping=g.vdim_mapping)
+        # chains on the gradient: what the NEXT operator makes of the result's labels / mapping
+        r2, dg = raises(Exception, lambda: g.div) if ndim > 1 else (False, None)
+        if dg is not None or r2:
+            want = sum(p.d2(k, X) for k in range(ndim))
+            ctx.require(not r2 and dg.nvdim == 1 and _close(dg.array[..., 0], want, exact, Fm * np.sum(1 / dxs ** 2)), "C05.chain_exact",
+                        "div(grad f) of a quadratic is not 2 tr S", op="div(grad)", dims=dims, grad_mapping=g.vdim_mapping,
+                        error=repr(dg) if r2 else None)
+        if ndim == 3:
+            r2, cg = raises(Exception, lambda: g.curl)
+            ok = not r2 and cg.nvdim == 3
+            for c in range(3 if ok else 0):
+                k = _axis_of_component(cg, c, dims)
+                if k is None:
+                    ok = False
+                    break
+                ok &= _close(cg.array[..., c], 0 * X[0], exact, 2 * Fm / (dxs[(k + 1) % 3] * dxs[(k + 2) % 3]))
+            ctx.require(ok, "C05.chain_exact", "curl(grad f) of a quadratic is not 0", op="curl(grad)", dims=dims,
+                        grad_mapping=g.vdim_mapping, error=repr(cg) if r2 else None)
     r, l = raises(Exception, lambda: f.laplace)
     if r:
         ctx.require(False, "C05.laplace_exact", "laplace raised", sig="raises-" + type(l).__name__, error=repr(l))
@@ -253,10 +454,9 @@ def check_poly(pr, ctx):
                     "laplacian of a scalar quadratic is not 2 tr S")
 
     # ---- vector with nvdim == ndim and a permuted mapping: div, curl, laplace
-    vd, mapping = list(pr["vdims"]), dict(pr["mapping"])
     polys = [newpoly() for _ in range(ndim)]
     V = np.stack([q.val(X) for q in polys], axis=-1)
-    v = df.Field(mesh, nvdim=ndim, value=V.copy(), vdims=vd, vdim_mapping=mapping)
+    v, vd, mapping = _vector(mesh, V, pr, ctx)
     if pr["relabel"]:
         rr, er = raises(Exception, setattr, v, "vdims", list(pr["relabel"]))
         want_map = {new: mapping[old] for new, old in zip(pr["relabel"], vd)}
@@ -276,6 +476,17 @@ def check_poly(pr, ctx):
         ctx.require(okd, "C05.div_exact", "divergence does not pair components with the mapped axes", mapping=mapping, dims=dims)
         if rel:
             ctx.require(okd, rel, "after relabelling the divergence no longer pairs by the mapping")
+        r2, gd = raises(Exception, lambda: d.grad)
+        ok = not r2 and gd.nvdim == ndim
+        for c in range(ndim if ok else 0):
+            a = _axis_of_component(gd, c, dims)
+            if a is None:
+                ok = False
+                break
+            want = sum(2 * polys[m].S[ax[m], a] for m in range(ndim)) + 0 * X[0]
+            ok &= _close(gd.array[..., c], want, exact, sum(Vm[m] / dxs[ax[m]] for m in range(ndim)) / dxs[a])
+        ctx.require(ok, "C05.chain_exact", "grad(div v) of quadratics is not the analytic constant", op="grad(div)", mapping=mapping,
+                    dims=dims, error=repr(gd) if r2 else None)
     if ndim == 3:
         r, cu = raises(Exception, lambda: v.curl)
         if r:
@@ -297,6 +508,13 @@ def check_poly(pr, ctx):
                         res_mapping=cu.vdim_mapping)
             if rel:
                 ctx.require(ok, rel, "after relabelling the curl no longer pairs by the mapping")
+            ctx.require(_positional(cu, dims), "C05.result_pairing", "component j of curl is not paired with mesh axis j", op="curl",
+                        dims=dims, vdims=cu.vdims, mapping=cu.vdim_mapping)
+            r2, dc = raises(Exception, lambda: cu.div)
+            sc = sum((Vm[rinv[(k + 2) % 3]] / dxs[(k + 1) % 3] + Vm[rinv[(k + 1) % 3]] / dxs[(k + 2) % 3]) / dxs[k] for k in range(3))
+            ctx.require(not r2 and dc.nvdim == 1 and _close(dc.array[..., 0], 0 * X[0], exact, sc), "C05.chain_exact",
+                        "div(curl v) of quadratics is not 0", op="div(curl)", mapping=mapping, dims=dims, curl_mapping=cu.vdim_mapping,
+                        error=repr(dc) if r2 else None)
     r, l = raises(Exception, lambda: v.laplace)
     if r:
         ctx.require(False, "C05.laplace_exact", "laplace raised", sig="raises-" + type(l).__name__, error=repr(l))
@@ -306,6 +524,13 @@ def check_poly(pr, ctx):
             want = sum(polys[m].d2(k, X) for k in range(ndim))
             ok &= _close(l.array[..., m], want, exact, Vm[m] * np.sum(1 / dxs ** 2))
         ctx.require(ok, "C05.laplace_exact", "laplacian of a vector field is not 2 tr S per component")
+        if ndim > 1:
+            lab = list(pr["relabel"]) if pr["relabel"] else vd
+            want_map = {lab[m]: dims[ax[m]] for m in range(ndim)}
+            okm = l.vdims == lab and l.vdim_mapping == want_map
+            ctx.require(okm, "C05.result_pairing", "the Laplacian of a mapped vector field lost the labels / pairing of its input",
+                        sig=SIG_LAPMAP if (l.vdims == lab and l.vdim_mapping != want_map) else None,
+                        op="laplace-vector", got_vdims=l.vdims, got=l.vdim_mapping, want=want_map)
     # ---- laplace for a component count unrelated to ndim (no mapping)
     ne = pr["nextra"]
     if ne != ndim and ne > 1:
@@ -346,13 +571,15 @@ def check_combo(pr, ctx):
         a = _axis_of_component(g, c, dims)
         ok &= a is not None and np.array_equal(g.array[..., c], _diff_arr(mesh, fv, valid, dims[a]))
     ctx.require(ok, "C05.combination", "grad is not the stack of the directional derivatives", op="grad", error=repr(g) if r else None)
+    if not r:
+        ctx.require(_positional(g, dims), "C05.result_pairing", "component j of grad is not paired with mesh axis j", op="grad",
+                    dims=dims, vdims=g.vdims, mapping=g.vdim_mapping)
     r, l = raises(Exception, lambda: f.laplace)
     ctx.require(not r and _sum_close(l.array[..., 0], [_diff_arr(mesh, fv, valid, d, 2) for d in dims]), "C05.combination",
                 "laplace is not the sum of the second derivatives", op="laplace", error=repr(l) if r else None)
 
-    vd, mapping = list(pr["vdims"]), dict(pr["mapping"])
     V = rng.uniform(-1, 1, size=(*n, ndim)) * amp
-    v = df.Field(mesh, nvdim=ndim, value=V.copy(), vdims=vd, vdim_mapping=mapping, valid=valid.copy())
+    v, vd, mapping = _vector(mesh, V, pr, ctx, valid=valid)
     ax = [dims.index(mapping[vd[m]]) for m in range(ndim)]
     rinv = {a: m for m, a in enumerate(ax)}
     r, d = raises(Exception, lambda: v.div)
@@ -372,6 +599,9 @@ def check_combo(pr, ctx):
                                                 -_diff_arr(mesh, V[..., rinv[k1]], valid, dims[k2])])
         ctx.require(ok, "C05.combination", "curl is not the textbook combination through the mapping", op="curl", mapping=mapping,
                     dims=dims, error=repr(cu) if r else None)
+        if not r:
+            ctx.require(_positional(cu, dims), "C05.result_pairing", "component j of curl is not paired with mesh axis j", op="curl",
+                        dims=dims, vdims=cu.vdims, mapping=cu.vdim_mapping)
     ne = pr["nextra"]
     W = rng.uniform(-1, 1, size=(*n, ne)) * amp
     w = df.Field(mesh, nvdim=ne, value=W.copy(), valid=valid.copy(), vdims=[f"c{i}" for i in range(ne)] if ne > 1 else None)
@@ -409,9 +639,8 @@ def check_identity(pr, ctx):
             worst = max(worst, float(np.max(np.abs(cg.array[..., c])) / (np.finfo(float).eps * sc)) if sc > 0 else 0.0)
             ok &= ulp_close(cg.array[..., c], 0.0, 64, sc)
         ctx.require(ok, "C05.curl_grad_zero", "curl(grad f) is not zero to rounding", worst_ulp=worst, n=n)
-    vd, mapping = list(pr["vdims"]), dict(pr["mapping"])
     V = rng.uniform(-1, 1, size=(*n, 3)) * amp
-    v = df.Field(mesh, nvdim=3, value=V.copy(), vdims=vd, vdim_mapping=mapping)
+    v, vd, mapping = _vector(mesh, V, pr, ctx)
     Vm = float(np.max(np.abs(V)))
     r, dc = raises(Exception, lambda: v.curl.div)
     if r:
@@ -446,9 +675,8 @@ def check_rot(pr, ctx):
     amp = 10.0 ** rng.uniform(-6, 6)
     fv = rng.uniform(-1, 1, size=tuple(n)) * amp
     f = _scalar(mesh, fv, valid)
-    vd, mapping = list(pr["vdims"]), dict(pr["mapping"])
     V = rng.uniform(-1, 1, size=(*n, ndim)) * amp
-    v = df.Field(mesh, nvdim=ndim, value=V.copy(), vdims=vd, vdim_mapping=mapping, valid=valid.copy())
+    v, vd, mapping = _vector(mesh, V, pr, ctx, valid=valid)
     coord = np.maximum(np.abs(mesh.region.pmin), np.abs(mesh.region.pmax))
     i1, i2 = dims.index(ax1), dims.index(ax2)
     coord_scale = coord.copy()
@@ -484,6 +712,59 @@ def check_rot(pr, ctx):
         ctx.require(ok, "C05.rot90_commute", "operator does not commute with the quarter turn",
                     sig=sig,
                     op=name, why=why, ax=[ax1, ax2], k=k, bc=pr["bc"], n=n, err=err, scale=sc)
+
+
+def check_stack(pr, ctx):
+    mesh, n, ndim, dxs, X = _mesh(pr)
+    if int(np.prod(n)) == 1:
+        ctx.trivial()
+    rng = np.random.default_rng(pr["seed"])
+    dims = pr["dims"]
+    amp = 10.0 ** rng.uniform(-6, 6)
+    A = rng.uniform(-1, 1, size=(*n, ndim)) * amp
+    valids = [rng.random(tuple(n)) < pr["density"] for _ in range(ndim)]
+    labels, smap = pr["labels"], pr["smap"]
+    scal = []
+    for j in range(ndim):
+        kw = {} if labels is None else {"vdims": [labels[j]], "vdim_mapping": {labels[j]: smap[j]}}
+        scal.append(df.Field(mesh, nvdim=1, value=A[..., j, np.newaxis].copy(), valid=valids[j].copy(), **kw))
+    if pr["assoc"] == "left":
+        r, st = raises(Exception, lambda: functools.reduce(operator.lshift, scal))
+    else:
+        r, st = raises(Exception, lambda: functools.reduce(lambda acc, sfield: sfield << acc, reversed(scal)))
+    if r:
+        ctx.require(False, "C05.stacked_pairing", "stacking raised", sig="raises-" + type(st).__name__, error=repr(st))
+        return
+    Vd = np.logical_and.reduce(valids)
+    axes = list(range(ndim)) if labels is None else [dims.index(a) for a in smap]      # component j -> axis, from the parameters
+    vd = st.vdims
+    ok = st.nvdim == ndim and st.mesh == mesh and st.array.shape == A.shape and np.array_equal(st.array[Vd], A[Vd])
+    ok = ok and np.array_equal(st.valid, Vd) and vd is not None and len(vd) == ndim and len(set(vd)) == ndim
+    ok = ok and (labels is None or list(vd) == list(labels))
+    ok = ok and st.vdim_mapping == {vd[j]: dims[axes[j]] for j in range(ndim)}
+    ctx.require(ok, "C05.stacked_pairing", "stacked field: components, labels or component-to-axis pairing", dims=dims, labels=labels,
+                smap=smap, got_vdims=vd, got_mapping=st.vdim_mapping, assoc=pr["assoc"])
+    rinv = {a: m for m, a in enumerate(axes)}
+    r, d = raises(Exception, lambda: st.div)
+    ctx.require(not r and d.nvdim == 1 and _sum_close(d.array[..., 0], [_diff_arr(mesh, A[..., m], Vd, dims[axes[m]]) for m in range(ndim)]),
+                "C05.combination", "div of a stacked field is not the sum of d(component)/d(paired axis)", op="div-stacked", dims=dims,
+                labels=labels, smap=smap, error=repr(d) if r else None)
+    if ndim == 3:
+        r, cu = raises(Exception, lambda: st.curl)
+        ok = not r and cu.nvdim == 3
+        for c in range(3 if ok else 0):
+            k = _axis_of_component(cu, c, dims)
+            if k is None:
+                ok = False
+                break
+            k1, k2 = (k + 1) % 3, (k + 2) % 3
+            ok &= _sum_close(cu.array[..., c], [_diff_arr(mesh, A[..., rinv[k2]], Vd, dims[k1]),
+                                                -_diff_arr(mesh, A[..., rinv[k1]], Vd, dims[k2])])
+        ctx.require(ok, "C05.combination", "curl of a stacked field is not the textbook combination through its pairing", op="curl-stacked",
+                    dims=dims, labels=labels, smap=smap, error=repr(cu) if r else None)
+        if not r:
+            ctx.require(_positional(cu, dims), "C05.result_pairing", "component j of curl is not paired with mesh axis j", op="curl-stacked",
+                        dims=dims, vdims=cu.vdims, mapping=cu.vdim_mapping)
 
 
 def check_refuse(pr, ctx):
